@@ -537,6 +537,10 @@ func (c *Check) refToSession(rv *refViolation) (*workerlib.Violation, []workerli
 		if passVal == fresh {
 			continue
 		}
+		// bounded effort: a disagreement that the simulator does not reproduce within
+		// the budget is still reported (as a reference-level violation, with the two
+		// passes as evidence); it must not hold the whole check up
+		deadline := time.Now().Add(150 * time.Second)
 		try := func(calls []workerlib.ECall) (*workerlib.Violation, []workerlib.ExplicitRun) {
 			run := workerlib.ExplicitRun{Tasks: [][]workerlib.ECall{calls}, Policy: simrtPolicyExplicit(), Est: 1 << 30}
 			session := []workerlib.ExplicitRun{run}
@@ -549,8 +553,11 @@ func (c *Check) refToSession(rv *refViolation) (*workerlib.Violation, []workerli
 			tries := 2
 			if c.E.Report.GoStmts > 0 {
 				tries = 26
+				if len(calls) > 600 {
+					tries = 5 // each try simulates the whole window
+				}
 			}
-			for k := 0; k < tries; k++ {
+			for k := 0; k < tries && time.Now().Before(deadline); k++ {
 				if k == 1 {
 					// the policy of the sequential passes: the caller runs until it blocks
 					session[0].Policy = simrt.Policy{Kind: "seq", PoolMode: "lifo"}
@@ -586,6 +593,10 @@ func (c *Check) refToSession(rv *refViolation) (*workerlib.Violation, []workerli
 			}
 			if v, ses := try(calls); v != nil {
 				return v, ses
+			}
+			if !time.Now().Before(deadline) {
+				c.Log("reference disagreement not reproduced under the simulator within the budget; reported at reference level")
+				break
 			}
 		}
 	}
@@ -1192,7 +1203,10 @@ func (c *Check) sweepChains() {
 // explicit simulated run (history window + seeded policies); true if a
 // violation was recorded.
 func (c *Check) spawnedMismatch(rvs []*refViolation) bool {
-	for _, rv := range rvs {
+	for k, rv := range rvs {
+		if k >= 3 {
+			break
+		}
 		if v, session := c.refToSession(rv); v != nil {
 			pr := &ProcResult{Session: &workerlib.Session{Mode: "explicit", Explicit: session}, Violations: []*workerlib.Violation{v}}
 			c.Agg.Violations = append(c.Agg.Violations, &foundViolation{V: v, Proc: pr, Stage: "equivalence", C: c})
